@@ -39,6 +39,39 @@ LEVEL = "proof"
 PID = "C10"
 
 
+def construction_functions():
+    """constructors of every class of prop.py plus the name-based call closure of Component.add / _encode / add_component /
+    CaselessDict.__setitem__ / update over cal.py, prop.py, parser.py, caselessdict.py, timezone/tzid.py"""
+    mods = {m: source.module(m) for m in ("cal", "parser", "prop", "caselessdict", "parser_tools", "timezone/tzid")}
+    table = {}
+    for mn, m in mods.items():
+        for fn, node in m.functions.items():
+            table.setdefault(fn, []).append((f"{mn}:{fn}", node))
+    seen = {}
+    todo = []
+    for cn in mods["prop"].classes:
+        for key in ("__init__", "__new__"):
+            nd = mods["prop"].class_members(cn).get(key)
+            if isinstance(nd, ast.FunctionDef):
+                todo.append((f"prop:{cn}.{key}", nd))
+    for q in ("Component.add", "Component._encode", "Component.add_component", "Component.__init__"):
+        todo.append((f"cal:{q}", mods["cal"].lookup(q)))
+    for q in ("CaselessDict.__setitem__", "CaselessDict.update", "CaselessDict.__init__"):
+        todo.append((f"caselessdict:{q}", mods["caselessdict"].lookup(q)))
+    for q in ("Parameters.__init__", "Parameters.update"):
+        todo.append((f"parser:{q}", mods["parser"].lookup(q)))
+    while todo:
+        label, node = todo.pop()
+        if node is None or label in seen:
+            continue
+        seen[label] = node
+        for c in frame.calls_of(node):
+            if not c.startswith("."):
+                for lab, nd in table.get(c, []):
+                    todo.append((lab, nd))
+    return seen
+
+
 def canonsort_shape():
     """canonsort_keys returns a permutation of the keys whose order does not depend on the order of the input (distinct keys): the
     result is a function of the key SET.  Decided on the real body by the list-algebra VCs (vc/pyvc/listalg: perm, det, noraise) for
@@ -211,8 +244,26 @@ def run(rep: common.Report):
         pure_ok.status, pure_ok.detail = ERROR, f"only {n_to_ical} to_ical methods found (vacuity guard)"
     pure_ok.detail = pure_ok.detail or f"{len(fns)} functions analysed ({n_to_ical} to_ical methods)"
     det_ok.detail = det_ok.detail or f"{len(fns)} functions analysed"
+    # construction side ("the same sequence of API calls produces the same bytes whatever the hash seed"): every value-class
+    # constructor of prop.py and everything reachable from Component.add / add_component / item assignment
+    con_ok = Obligation(f"{PID}.determinism.construction_does_not_depend_on_hash_order", "Component.add and every value constructor of prop.py", "fin", PROVED)
+    try:
+        cons = construction_functions()
+    except Exception as e:  # noqa
+        cons = {}
+        con_ok.status, con_ok.detail = ERROR, repr(e)
+    for label, node in sorted(cons.items()):
+        nd = frame.nondeterminism(node)
+        if nd and con_ok.status == PROVED:
+            con_ok.status = REFUTED
+            con_ok.detail = f"{label} line {nd[0][0]}: {nd[0][1]}"
+            con_ok.witness = {"function": label, "line": nd[0][0], "what": nd[0][1]}
+    if len(cons) < 25 and con_ok.status == PROVED:
+        con_ok.status, con_ok.detail = ERROR, f"only {len(cons)} construction functions found (vacuity guard)"
+    con_ok.detail = con_ok.detail or f"{len(cons)} functions analysed (constructors of prop.py, Component.add / _encode / add_component / __setitem__ and what they call)"
+    rep.extra["functions_reachable_from_construction"] = sorted(cons)
     from props import C10_bnd
-    for ob in (pure_ok, det_ok):
+    for ob in (pure_ok, det_ok, con_ok):
         if ob.status == REFUTED:
             w = C10_bnd.search_for(ob.oid)
             if w:
